@@ -120,7 +120,7 @@ def detect_wt(sid, wt, checks):
 
     /repo stays untouched; evidence goes to a scratch directory, not /verif/evidence.
     """
-    dst = VERIF / "seeded" / sid
+    dst = VERIF / os.environ.get("SEED_BASE", "seeded") / sid
     meta = json.loads((dst / "meta.json").read_text())
     checks = checks or [meta["property"]]
     head = sh("git -C /repo rev-parse HEAD").stdout.strip()
